@@ -11,6 +11,7 @@ import (
 	"context"
 	"fmt"
 	"testing"
+	"time"
 
 	"github.com/pilosa/pilosa/internal/vkit"
 	"pgregory.net/rapid"
@@ -49,9 +50,19 @@ func TestVerifC06_FragmentImport(outer *testing.T) {
 			if pv := vc06Try(func() { err = f.importRoaring(context.Background(), append([]byte(nil), data...), clear) }); pv != nil {
 				t.Fatalf("fragment.importRoaring(%s, % x) panicked: %v", label, data, pv)
 			}
-			if !f.mu.TryLock() {
+			// The lock may legitimately be held for a moment by the background snapshot worker (an import that
+			// passes MaxOpN queues a snapshot), so a failed TryLock is retried; a lock leaked by the rejected import
+			// never comes back. (Correction: the first version treated one failed TryLock as a leak and unlocked on
+			// the fragment's behalf, which crashed the snapshot worker's own Unlock - a false alarm.)
+			locked := false
+			for i := 0; i < 30000 && !locked; i++ {
+				if locked = f.mu.TryLock(); !locked {
+					time.Sleep(time.Millisecond)
+				}
+			}
+			if !locked {
 				f.mu.Unlock() // release it on the fragment's behalf so that the clean-up (Close) does not hang
-				t.Fatalf("fragment.importRoaring(%s, % x) returned (err=%v) with the fragment lock still held", label, data, err)
+				t.Fatalf("fragment.importRoaring(%s, % x) returned (err=%v) with the fragment lock still held after 30 s", label, data, err)
 			}
 			f.mu.Unlock()
 			if err != nil {
